@@ -32,6 +32,8 @@ def jobs():
         jobs_layered.register(_JOBS)
         from . import jobs_api
         jobs_api.register(_JOBS)
+        from . import jobs_writer
+        jobs_writer.register(_JOBS)
         from . import jobs_rfwc
         jobs_rfwc.register(_JOBS)
         names = [j.name for j in _JOBS]
@@ -191,3 +193,27 @@ prop("C11", "model_checking",
      "(stubs/realloc_words.c), numeric text axioms for the typed setter.",
      "CBMC bounded symbolic execution of one API operation from an arbitrary well-formed state against a reference "
      "ordered map (inductive per operation)", "6 C11")
+
+prop("C07", "model_checking",
+     "Two machine-checked halves and one paper step. (1) econf_writeFile (real code) is checked against a reference "
+     "writer over the sequence of fprintf calls: each entry written exactly once, its key line emitted while the "
+     "section in effect in the output equals the entry's section, value quoted iff flagged, comment lines with the "
+     "object's comment character, nothing else, object unchanged; entries with symbolic section/key/flag, texts of "
+     "fixed length with symbolic bytes. (2) The parser scenarios of C02 (entry / header / comment / continuation "
+     "lines for the same delimiter and comment characters) give back exactly key, value, quote flag, comments and "
+     "section of such lines. (3) Setter histories produce well-formed entry lists (C11 jobs). The composition "
+     "'written token text parses back to the same entry' is a paper lemma over (1) and (2); a direct write+read "
+     "harness does not fit (symbolic line lengths).",
+     "Bounded: <= 4 entries, texts <= 6 bytes; token text fixed by literal format strings (trusted reading of "
+     "printf); composition step not machine-checked. Values outside DESIGN 5.4 (unambiguous textual form) are not "
+     "claimed.", "CBMC bounded symbolic execution of the writer against a reference writer over fprintf tokens + C02 "
+     "parser scenarios (composition on paper)", "6 C07")
+prop("C14", "model_checking",
+     "No-truncation is decided where fixed-size buffers could bite: with BUFSIZ scaled to 4 in the verified text, "
+     "the writer and the extended getter must hand on values and comments of 5-6 bytes whole (token lengths / "
+     "returned string lengths equal the stored lengths); allocation-size arithmetic that precedes copies "
+     "(addbrackets, combine_strings, stripbrackets, path composition) is checked by CBMC bounds checks in every job "
+     "that runs those functions; PATH_MAX arrays are written through snprintf bounded by sizeof.",
+     "Bounded text lengths (scaled BUFSIZ); getline's own growth and 1 MiB inputs are libc / not explored; "
+     "util/econftool.c replace_str is C19.", "CBMC bounded symbolic execution with BUFSIZ scaled down (side-car "
+     "#define) + bounds checks on allocation-size arithmetic", "6 C14")
